@@ -588,8 +588,41 @@ func (p *Partition) MeasurementSeriesIDIterator(name []byte) (tsdb.SeriesIDItera
 	if err != nil {
 		return nil, err
 	}
-	return newFileSetSeriesIDIterator(fs, fs.MeasurementSeriesIDIterator(name)), nil
+	return newFileSetSeriesIDIterator(fs, p.liveSeriesIDIterator(fs.MeasurementSeriesIDIterator(name))), nil
 }
+
+// liveSeriesIDIterator drops from itr the series that are no longer in the partition.
+//
+// The file set iterators merge what the files hold; a series an older file lists and a newer
+// file tombstones is still among it (the tag value iterator skips the tombstones of the
+// newest file). Callers relied on the series file to weed those out, but a series that was
+// removed from this shard stays in the series file while another shard of the database
+// holds it. The partition's series set is what the shard has.
+func (p *Partition) liveSeriesIDIterator(itr tsdb.SeriesIDIterator) tsdb.SeriesIDIterator {
+	if itr == nil {
+		return nil
+	}
+	if sitr, ok := itr.(tsdb.SeriesIDSetIterator); ok {
+		return tsdb.NewSeriesIDSetIterator(sitr.SeriesIDSet().And(p.seriesIDSet))
+	}
+	return &liveSeriesIDIterator{itr: itr, live: p.seriesIDSet}
+}
+
+type liveSeriesIDIterator struct {
+	itr  tsdb.SeriesIDIterator
+	live *tsdb.SeriesIDSet
+}
+
+func (itr *liveSeriesIDIterator) Next() (tsdb.SeriesIDElem, error) {
+	for {
+		e, err := itr.itr.Next()
+		if err != nil || e.SeriesID == 0 || itr.live.Contains(e.SeriesID) {
+			return e, err
+		}
+	}
+}
+
+func (itr *liveSeriesIDIterator) Close() error { return itr.itr.Close() }
 
 // DropMeasurement deletes a measurement from the index. DropMeasurement does
 // not remove any series from the index directly.
@@ -813,7 +846,7 @@ func (p *Partition) TagKeySeriesIDIterator(name, key []byte) (tsdb.SeriesIDItera
 		fs.Release()
 		return nil, nil
 	}
-	return newFileSetSeriesIDIterator(fs, itr), nil
+	return newFileSetSeriesIDIterator(fs, p.liveSeriesIDIterator(itr)), nil
 }
 
 // TagValueSeriesIDIterator returns a series iterator for a single key value.
@@ -831,7 +864,7 @@ func (p *Partition) TagValueSeriesIDIterator(name, key, value []byte) (tsdb.Seri
 		fs.Release()
 		return nil, nil
 	}
-	return newFileSetSeriesIDIterator(fs, itr), nil
+	return newFileSetSeriesIDIterator(fs, p.liveSeriesIDIterator(itr)), nil
 }
 
 // MeasurementTagKeysByExpr extracts the tag keys wanted by the expression.
